@@ -96,46 +96,69 @@ Lemma call_findSpace σ need k : g_err σ = false -> hwm (g_st σ) + need + 2 < 
   | None => RNoFuel
   end.
 Proof.
-  intros He Hb. unfold call1, run, C14gen.findSpace. step. rewrite He. step.
+  dσ σ. intros He Hb. subst err. unfold call1, run, C14gen.findSpace. lstep.
   unfold c14_findSpace_bound at 1.
-  replace (Z.to_nat (Z.of_N (hwm (g_st σ)) + Z.of_N need + 2)) with (N.to_nat (hwm (g_st σ) + need + 2)) by lia.
-  match goal with |- for_loop ?fu Vi ?hi ?body ?k0 ?s0 = _ =>
-    change (for_loop fu Vi fs_hi (fs_body (fun (_ : string) (σ' : ist) => k (set_vars σ' (setv (g_vars σ) Vn (v_n (g_vars σ')))))) k0
-              (set_vars σ (setv (setv (setv vars0 Vneed (Z.of_N need)) Vn (Z.of_N 0)) Vi (Z.of_N 0))) = _) end.
-  rewrite (scan_loop _ _ σ (setv vars0 Vneed (Z.of_N need)) need He eq_refl) by lia.
-  rewrite <- scan_ni_fst.
-  destruct (scan_ni (N.to_nat (hwm (g_st σ) + need + 2)) (used (g_st σ)) need 0 0) as [[n' i']|]; [|reflexivity].
-  step. rewrite He. step. reflexivity.
+  replace (Z.to_nat (Z.of_N h + Z.of_N need + 2)) with (N.to_nat (h + need + 2)) by lia.
+  match goal with |- for_loop ?fu Vi ?hi ?body ?k0 ?s0 = ?RR =>
+    change (for_loop fu Vi fs_hi (fs_body (fun (_ : string) (σ' : ist) => k (set_vars σ' (setv
+               (mkvars vx vz vneed vn vnow vsec vnum vlength vsize vi vo vs vv voffset vtimestamp) Vn (v_n (g_vars σ')))))) k0
+              (set_vars (mkist (Build_st o t u h f) vars0 pos lim buf dat dlen ws false nw)
+                        (setv (setv (setv vars0 Vneed (Z.of_N need)) Vn (Z.of_N 0)) Vi (Z.of_N 0))) = RR) end.
+  rewrite (scan_loop _ _ (mkist (Build_st o t u h f) vars0 pos lim buf dat dlen ws false nw) (setv vars0 Vneed (Z.of_N need)) need eq_refl eq_refl) by lia.
+  rewrite <- scan_ni_fst. cbn [g_st used].
+  destruct (scan_ni (N.to_nat (h + need + 2)) u need 0 0) as [[n' i']|]; [|reflexivity].
+  lstep. reflexivity.
 Qed.
 
 (* ---------- the counted loops that free / mark a run are Model.C14.mark ---------- *)
-Lemma mark_loop dc ret k (hiv nv : rvar) txt b σb rb n cnt :
-  (forall σ, look σ hiv = getv (g_vars σ) hiv) -> (forall σ, look σ nv = getv (g_vars σ) nv) ->
-  (forall r a, getv (setv r Vi a) hiv = getv r hiv) -> (forall r a, getv (setv r Vi a) nv = getv r nv) ->
-  g_err σb = false -> getv rb hiv = Z.of_N cnt -> getv rb nv = Z.of_N n -> n + cnt < 2^31 ->
+Ltac mark_loop_tac :=
+  let He := fresh "He" in let Hhi := fresh "Hhi" in let Hn := fresh "Hn" in let Hb := fresh "Hb" in
+  intros He Hhi Hn Hb; change (2^31) with 2147483648 in Hb;
+  match goal with σb : ist, rb : vars |- _ =>
+    destruct σb as [[o t u0 h f] vs0 pos lim buf dat dlen ws err nw];
+    destruct rb as [vx vz vneed vn vnow vsec vnum vlength vsize vi vo vs vv voffset vtimestamp] end;
+  cbn [g_err g_st used v_now v_need v_n v_s v_o] in *; subst;
+  let m := fresh "m" in let IH := fresh "IH" in let j := fresh "j" in let u := fresh "u" in let Hj := fresh "Hj" in
+  induction m as [|m IH]; intros j u Hj; cbn [for_loop mark]; lstep;
+  [ match goal with |- (if (Z.of_N j <? Z.of_N ?c)%Z then _ else _) = _ =>
+      assert ((Z.of_N j <? Z.of_N c)%Z = false) as -> by lia; replace j with c by lia; reflexivity end
+  | match goal with |- (if (Z.of_N j <? Z.of_N ?c)%Z then _ else _) = _ =>
+      assert ((Z.of_N j <? Z.of_N c)%Z = true) as -> by lia end;
+    match goal with |- context [wrap_s 32 (Z.of_N ?n + Z.of_N j)%Z] =>
+      rewrite (ws32 (Z.of_N n + Z.of_N j)) by lia;
+      assert ((Z.of_N n + Z.of_N j <? 0)%Z = false) as -> by lia;
+      replace (Z.to_N (Z.of_N n + Z.of_N j)) with (n + j) by lia;
+      rewrite (ws32 (Z.of_N j + 1)) by lia; replace (Z.of_N j + 1)%Z with (Z.of_N (j + 1)) by lia;
+      let IH' := fresh in
+      pose proof (IH (j + 1) (setB u (n + j) _) ltac:(lia)) as IH';
+      replace (n + (j + 1)) with (n + j + 1) in IH' by lia; exact IH' end ].
+
+Lemma mark_loop_now dc ret k txt b σb rb n cnt :
+  g_err σb = false -> v_now rb = Z.of_N cnt -> v_n rb = Z.of_N n -> n + cnt < 2^31 ->
   forall m j u, j + N.of_nat m = cnt ->
-  for_loop (S m) Vi (fun v => v hiv)
-           (sq (fun s k => exec dc s ret k) [SMark txt (fun v => wrap_s 32 (v nv + v Vi)%Z) b]) k
+  for_loop (S m) Vi (fun v => v Vnow)
+           (sq (fun s k => exec dc s ret k) [SMark txt (fun v => wrap_s 32 (v Vn + v Vi)%Z) b]) k
            (set_vars (set_st σb (st_used (g_st σb) u)) (setv rb Vi (Z.of_N j)))
   = k (set_vars (set_st σb (st_used (g_st σb) (mark u (n + j) m b))) (setv rb Vi (Z.of_N cnt))).
-Proof.
-  intros Hl1 Hl2 Hg1 Hg2 He Hhi Hn Hb. change (2^31) with 2147483648 in Hb.
-  induction m as [|m IH]; intros j u Hj.
-  - cbn [for_loop mark]. rewrite Hl1. step. rewrite Hg1, Hhi.
-    assert ((Z.of_N j <? Z.of_N cnt)%Z = false) as -> by lia. replace j with cnt by lia. reflexivity.
-  - cbn [for_loop mark]. rewrite Hl1. step. rewrite Hg1, Hhi.
-    assert ((Z.of_N j <? Z.of_N cnt)%Z = true) as -> by lia.
-    step. rewrite He. rewrite Hl2. step. rewrite Hg2, Hn.
-    rewrite (ws32 (Z.of_N n + Z.of_N j)) by lia.
-    assert ((Z.of_N n + Z.of_N j <? 0)%Z = false) as -> by lia.
-    replace (Z.to_N (Z.of_N n + Z.of_N j)) with (n + j) by lia.
-    rewrite (ws32 (Z.of_N j + 1)) by lia. replace (Z.of_N j + 1)%Z with (Z.of_N (j + 1)) by lia.
-    specialize (IH (j + 1) (setB u (n + j) b) ltac:(lia)).
-    replace (n + (j + 1)) with (n + j + 1) in IH by lia.
-    unfold set_vars, set_st, st_used in *.
-    cbn [g_st g_vars g_pos g_lim g_buf g_data g_dlen g_ws g_err g_now offs tss used hwm img] in *.
-    exact IH.
-Qed.
+Proof. mark_loop_tac. Qed.
+
+Lemma mark_loop_need dc ret k txt b σb rb n cnt :
+  g_err σb = false -> v_need rb = Z.of_N cnt -> v_n rb = Z.of_N n -> n + cnt < 2^31 ->
+  forall m j u, j + N.of_nat m = cnt ->
+  for_loop (S m) Vi (fun v => v Vneed)
+           (sq (fun s k => exec dc s ret k) [SMark txt (fun v => wrap_s 32 (v Vn + v Vi)%Z) b]) k
+           (set_vars (set_st σb (st_used (g_st σb) u)) (setv rb Vi (Z.of_N j)))
+  = k (set_vars (set_st σb (st_used (g_st σb) (mark u (n + j) m b))) (setv rb Vi (Z.of_N cnt))).
+Proof. mark_loop_tac. Qed.
+
+Lemma mark_loop_s dc ret k txt b σb rb n cnt :
+  g_err σb = false -> v_s rb = Z.of_N cnt -> v_o rb = Z.of_N n -> n + cnt < 2^31 ->
+  forall m j u, j + N.of_nat m = cnt ->
+  for_loop (S m) Vi (fun v => v Vs)
+           (sq (fun s k => exec dc s ret k) [SMark txt (fun v => wrap_s 32 (v Vo + v Vi)%Z) b]) k
+           (set_vars (set_st σb (st_used (g_st σb) u)) (setv rb Vi (Z.of_N j)))
+  = k (set_vars (set_st σb (st_used (g_st σb) (mark u (n + j) m b))) (setv rb Vi (Z.of_N cnt))).
+Proof. mark_loop_tac. Qed.
 
 (* ---------- WriteSector ---------- *)
 Definition init (s : st) (x z : N) (d : list N) (now : N) : ist :=
